@@ -345,6 +345,8 @@ def main(argv):
     print("  counters: " + json.dumps(_jsonable(counters), sort_keys=True)[:1500])
     print("  max: " + json.dumps(_jsonable(maxima), sort_keys=True)[:1500])
     if new:
+        for msg in inconclusive[:5]:
+            print(f"  (also inconclusive: {msg[:600]})")
         return 1
     if inconclusive:
         for msg in inconclusive[:10]:
